@@ -30,7 +30,14 @@
     * overtime_pushdown_two_grids (+ bucket_by_seconds, bucket_value_is_window_function, bucket_avg_is_window_avg): rule #1's
       storage pre-aggregate of the bucket [T, T+r) equals f_over_time over the one-second points of that bucket (engine window
       evaluation on the one-second grid, via over_time_is_definition) for sum/min/max, count up to the 0-vs-missing convention,
-      avg as sum/count at the row level; stdvar/stddev excluded (stdvar_pushdown_is_not_population).
+      avg (overtime_pushdown_two_grids_avg); stdvar/stddev excluded (stdvar_pushdown_is_not_population).
+    * rule2_two_grids / rule3_two_grids (via two_grid_core): the pushed-down point of rules #2 and #3 for a group and a bucket
+      equals the engine's evaluation on the one-second grid (agg over the series of f_over_time, resp. f_over_time over the
+      window of the group's one-second aggregates) for sum∘sum, min∘min, max∘max; count∘count and avg∘avg are not pooled
+      values by definition and are not pushed down exactly.
+    * subquery_is_window_of_results (evalChain_snoc): `f_over_time((X)[r:])` is f over the window of X's results with the
+      subquery's own range; early_range_violates: the seeded/C27-r3-2 order (range stored before the operand is evaluated,
+      variant evalChainEarlyRange) contradicts it.
     * bucket_group_eq_pooled, groupPoint_pushdown, pushed_query_is_aggregate, rule0..3_expression, reduction_sound_sum:
       reduction soundness lifted to the storage query over events and to whole expressions: under exactly the rules' side
       conditions the evaluator's result for the four rule shapes IS the storage query, and that query's every point is the
@@ -40,7 +47,8 @@
       (a tag named twice, or by two of its names, changes neither the engine-side grouping nor the pushed-down query).
     * quantile_def (∀ q ∈ [0,1]: linear interpolation between the closest ranks of the sorted present points, with bounds),
       aggQuantile_perm (function of the multiset of present points), topk_def / topK_eq (per-series weight semantics).
-    * repo_alias_violates: the pinned tree's engine-side grouping by a legacy alias differs from the pushed-down query.
+    * repo_alias_violates: the PRE-FIX (before /repo 78db24c9) engine-side grouping by a legacy alias differs from the
+      pushed-down query (aggregateRepoAlias is a witness only, no evaluated variant uses it).
     * aggGroup_repo_violates, aggStdVar_repo_violates, repo_reduction_violates: the pinned tree's behaviour (Cfg.repo)
       contradicts the property on concrete inputs; Cfg.fixed = fixes/C27-*.diff.
     * binApply_self / binApply_matched: vector-vector binary operators (one-to-one): an operand matched against itself loses
@@ -1601,6 +1609,238 @@ example : (overTime twoLodCtx.t twoLodCtx.w 15 .avg [some 1, some 2, some 4, non
     = otApply .avg (slice [some 1, some 2, some 4, none, some 8, some 16] (twoLodCtx.L 2) 2) := by
   rw [over_time_is_definition_general twoLodCtx .avg rfl _ rfl 15 rfl 2 (by decide)]
   decide +kernel
+
+
+
+/-! ### subqueries: `f_over_time((g …)[r:])` is f over the window of g's results -/
+
+/-- a node on top of a chain is applied to the chain's result whenever the reduction found for the longer chain is the one
+    found for the chain below (it does not absorb the new node) -/
+theorem evalChain_snoc (cfg : Cfg) (st : Store) (ts : TS) (w : Option What) (below : List Node) (n : Node)
+    (hsame : evalReductionRules (if cfg.whatFix then w else none) (astList 0 (below ++ [n])) ts.lodStep =
+             evalReductionRules (if cfg.whatFix then w else none) (astList 0 below) ts.lodStep)
+    (hbound : ∀ red, evalReductionRules (if cfg.whatFix then w else none) (astList 0 below) ts.lodStep = some red →
+             red.upto + 1 ≤ below.length) :
+    evalChain cfg st ts w (below ++ [n]) = applyNode cfg ts n (evalChain cfg st ts w below) := by
+  unfold evalChain
+  simp only []
+  rw [hsame]
+  cases hred : evalReductionRules (if cfg.whatFix then w else none) (astList 0 below) ts.lodStep with
+  | none => simp only [List.foldl_append, List.foldl_cons, List.foldl_nil]
+  | some red =>
+    have hb := hbound red hred
+    simp only [List.drop_append_of_le_length hb, List.foldl_append, List.foldl_cons, List.foldl_nil]
+
+/-- **subquery semantics**: `f_over_time((X)[r:])`, X any chain whose reduction (if any) does not reach the new call, is
+    `f` over the window of X's results, series by series — the range `r` of the subquery, not a range left behind by a
+    call inside X, and X's results, not X's inputs. -/
+theorem subquery_is_window_of_results (cfg : Cfg) (st : Store) (ts : TS) (w : Option What) (below : List Node) (f : OtFn) (r : Int)
+    (hsame : evalReductionRules (if cfg.whatFix then w else none) (astList 0 (below ++ [.ot f r true])) ts.lodStep =
+             evalReductionRules (if cfg.whatFix then w else none) (astList 0 below) ts.lodStep)
+    (hbound : ∀ red, evalReductionRules (if cfg.whatFix then w else none) (astList 0 below) ts.lodStep = some red →
+             red.upto + 1 ≤ below.length) :
+    evalChain cfg st ts w (below ++ [.ot f r true]) =
+      (evalChain cfg st ts w below).map (fun s => { s with vals := overTime ts.times r ts.lodStep f s.vals }) :=
+  evalChain_snoc cfg st ts w below (.ot f r true) hsame hbound
+
+/-- non-vacuity: sum_over_time((max_over_time((m + 0)[1s:]))[2s:]) (no reduction) and
+    sum_over_time((sum by (a) (m))[2s:]) (rule #0 inside, rule #3 refused because 2 s > step) satisfy the hypotheses -/
+example :
+    evalReductionRules none (astList 0 ([.brk, .ot .max 1 true] ++ [.ot .sum 2 true])) 1 = none ∧
+    evalReductionRules none (astList 0 [.brk, .ot .max 1 true]) 1 = none ∧
+    evalReductionRules none (astList 0 ([.agg .sum false [1]] ++ [.ot .sum 2 true])) 1 =
+      evalReductionRules none (astList 0 [.agg .sum false [1]]) 1 ∧
+    (evalReductionRules none (astList 0 [.agg .sum false [1]]) 1).map (·.upto) = some 0 := by decide +kernel
+
+/-- **the mutation of seeded/C27-r3-2 violates it** (`ev.r = e.Range` before the operand is evaluated: the inner call resets
+    ev.r to 0): sum_over_time((max_over_time((m + 0)[1s:]))[2s:]) on `exStore` — the real order sums the two points of the
+    window (2 + 4 = 6 at the last point), the mutated order evaluates a strict function with range 0 < step: an empty
+    window everywhere, nothing is returned (a non-strict function would return the single points). -/
+theorem early_range_violates :
+    exec Cfg.fixed exStore exTS none [.brk, .ot .max 1 true, .ot .sum 2 true]
+      = [⟨[(1, 1), (2, 1), (3, 1)], [none, some 6]⟩, ⟨[(1, 1), (2, 2), (3, 1)], [none, some 10]⟩] ∧
+    (evalChainEarlyRange Cfg.fixed exStore exTS none [.brk, .ot .max 1 true, .ot .sum 2 true]).map (fun s => s.vals.drop 1)
+      = [[none, none], [none, none]] ∧
+    -- without a call inside the operand the mutation is invisible
+    evalChainEarlyRange Cfg.fixed exStore exTS none [.brk, .agg .sum false [1], .ot .sum 2 true]
+      = evalChain Cfg.fixed exStore exTS none [.brk, .agg .sum false [1], .ot .sum 2 true] := by
+  decide +kernel
+
+
+/-! ### two-grid statements: avg, and reduction rules #2 and #3 -/
+
+/-- the common core of the two-grid arguments, for any set of stored series and any per-second value `g`: the bucket
+    [T, T+r) is the pool of its r one-second buckets, and on the one-second grid every over-time function evaluates at the
+    bucket's last second to its definition on the r per-second values -/
+theorem two_grid_core (st : Store) (members : List Nat) (t1 : List Int) (τ0 T : Int) (r j : Nat) (g : Row → Rat)
+    (hg : uniform t1 τ0 1) (hr : 1 ≤ r) (hrj : r ≤ j) (hj : j < t1.length) (hT : τ0 + (j : Int) = T + (r : Int) - 1) :
+    let u1 : List Val := (List.range t1.length).map (fun (i : Nat) => (mergeRows (bucketRows st members (τ0 + (i : Int)) (τ0 + (i : Int) + 1))).map g)
+    let per : List (Option Row) := (List.range r).map (fun (d : Nat) => mergeRows (bucketRows st members (T + (d : Int)) (T + (d : Int) + 1)))
+    mergeRows (bucketRows st members T (T + (r : Int))) = pooled per ∧
+    ∀ f : OtFn, (overTime t1 r 1 f u1).getD j none =
+      if (present (per.map (Option.map g))).length = 0 then otNil f else otApply f (per.map (Option.map g)) := by
+  intro u1 per
+  have hv : u1.length = t1.length := by simp [u1]
+  have hbucket : mergeRows (bucketRows st members T (T + (r : Int))) = pooled per := by
+    rw [bucket_by_seconds, ← mergeAll_filterMap, ← mergeRows_eq_mergeAll]; rfl
+  have hslice : slice u1 (j + 1 - r) j = per.map (Option.map g) := by
+    have hu1 : u1 = (List.range t1.length).map (fun (i : Nat) => (mergeRows (bucketRows st members (τ0 + (i : Int)) (τ0 + (i : Int) + 1))).map g) := rfl
+    rw [hu1, slice_map_range _ _ _ _ hj]
+    have e : j + 1 - (j + 1 - r) = r := by omega
+    rw [e]
+    simp only [per, List.map_map]
+    apply List.map_congr_left
+    intro d hd
+    have hd' : d < r := List.mem_range.mp hd
+    have : τ0 + ((j + 1 - r + d : Nat) : Int) = T + (d : Int) := by
+      have : ((j + 1 - r + d : Nat) : Int) = (j : Int) + 1 - (r : Int) + (d : Int) := by omega
+      rw [this]; linarith
+    simp only [Function.comp, this]
+  refine ⟨hbucket, ?_⟩
+  intro f
+  have hk : kSpec (otStrict f) (r : Int) 1 r := by
+    refine ⟨hr, by norm_num, ?_⟩
+    cases otStrict f <;> simp
+  have hnot : ¬ j < r := by omega
+  rw [over_time_is_definition t1 τ0 1 (r : Int) r f u1 hg hk hv j hj, if_neg hnot, hslice]
+
+theorem secVal_eq_map : secVal = Option.map (rowValue .avg 1 1) := by
+  funext o; rfl
+
+/-- **(1) avg inside the two-grid statement**: with at most one event in every second of the grid, avg_over_time over the
+    one-second points of the bucket equals the storage's pre-aggregate with what = avg (pooled sum / pooled count) -/
+theorem overtime_pushdown_two_grids_avg (st : Store) (m : Nat) (t1 : List Int) (τ0 T : Int) (r j : Nat)
+    (hg : uniform t1 τ0 1)
+    (hone : ∀ i : Nat, i < t1.length → (bucketRows st [m] (τ0 + (i : Int)) (τ0 + (i : Int) + 1)).length ≤ 1)
+    (hr : 1 ≤ r) (hrj : r ≤ j) (hj : j < t1.length) (hT : τ0 + (j : Int) = T + (r : Int) - 1) :
+    let v1 : List Val := (List.range t1.length).map (fun (i : Nat) => secVal (mergeRows (bucketRows st [m] (τ0 + (i : Int)) (τ0 + (i : Int) + 1))))
+    (overTime t1 r 1 .avg v1).getD j none = (mergeRows (bucketRows st [m] T (T + (r : Int)))).map (rowValue .avg r r) := by
+  intro v1
+  obtain ⟨hb, hdef⟩ := two_grid_core st [m] t1 τ0 T r j (rowValue .avg 1 1) hg hr hrj hj hT
+  have hr0 : ((r : Nat) : Int) ≠ 0 := by omega
+  have hper : ∀ o ∈ (List.range r).map (fun (d : Nat) => mergeRows (bucketRows st [m] (T + (d : Int)) (T + (d : Int) + 1))), isEv o := by
+    intro o ho
+    simp only [List.mem_map, List.mem_range] at ho
+    obtain ⟨d, hd, rfl⟩ := ho
+    have e : T + (d : Int) = τ0 + ((j + 1 - r + d : Nat) : Int) := by
+      have : ((j + 1 - r + d : Nat) : Int) = (j : Int) + 1 - (r : Int) + (d : Int) := by omega
+      rw [this]; linarith
+    rw [e]
+    exact mergeRows_isEv _ (hone _ (by omega))
+  have havg := bucket_avg_is_window_avg _ hper (r : Int) hr0
+  have hv1 : v1 = (List.range t1.length).map (fun (i : Nat) => (mergeRows (bucketRows st [m] (τ0 + (i : Int)) (τ0 + (i : Int) + 1))).map (rowValue .avg 1 1)) := rfl
+  rw [hv1, hdef .avg, hb, havg, secVal_eq_map]
+  by_cases h0 : (present (((List.range r).map (fun (d : Nat) => mergeRows (bucketRows st [m] (T + (d : Int)) (T + (d : Int) + 1)))).map (Option.map (rowValue .avg 1 1)))).length = 0
+  · rw [if_pos h0]
+    simp only [otNil, otApply, aggAvg, h0, if_true]
+  · rw [if_neg h0]
+
+/-- the one-second value of a group with the `what` of the pushed-down query -/
+def secWhat : What → What
+  | .sum => .sumsec
+  | w => w
+
+/-- **(2) rule #3, two grids** — `f_over_time((agg by (G) (m))[r:])` with agg∘f ∈ sum∘sum, min∘min, max∘max is pushed down
+    as ONE storage query (rule3_expression: what = f, grouped by G, Range r).  Its point for a group of stored series and
+    the bucket [T, T+r) equals the engine's evaluation on the one-second grid: f_over_time over the window of the group's
+    one-second aggregates (`u1` = what the storage returns for `agg by (G) (m)` at one second, rule #0: what = sumsec / min /
+    max), at the bucket's last second.  No restriction on the number of events per second. -/
+theorem rule3_two_grids (st : Store) (members : List Nat) (t1 : List Int) (τ0 T : Int) (r j : Nat)
+    (hg : uniform t1 τ0 1) (hr : 1 ≤ r) (hrj : r ≤ j) (hj : j < t1.length) (hT : τ0 + (j : Int) = T + (r : Int) - 1) :
+    let u1 (w : What) : List Val := (List.range t1.length).map (fun (i : Nat) =>
+      (mergeRows (bucketRows st members (τ0 + (i : Int)) (τ0 + (i : Int) + 1))).map (rowValue (secWhat w) 1 1))
+    let bucket := mergeRows (bucketRows st members T (T + (r : Int)))
+    (overTime t1 r 1 .sum (u1 .sum)).getD j none = bucket.map (rowValue .sum r r) ∧
+    (overTime t1 r 1 .min (u1 .min)).getD j none = bucket.map (rowValue .min r r) ∧
+    (overTime t1 r 1 .max (u1 .max)).getD j none = bucket.map (rowValue .max r r) := by
+  intro u1 bucket
+  have hr0 : ((r : Nat) : Rat) ≠ 0 := by
+    have : (1 : Rat) ≤ (r : Rat) := by exact_mod_cast hr
+    linarith
+  refine ⟨?_, ?_, ?_⟩
+  · obtain ⟨hb, hdef⟩ := two_grid_core st members t1 τ0 T r j (rowValue .sumsec 1 1) hg hr hrj hj hT
+    show (overTime t1 r 1 .sum ((List.range t1.length).map _)).getD j none = _
+    have hfun : (rowValue .sum (r : Int) (r : Int)) = (rowValue .sumsec 1 1) := by
+      funext row; simp [rowValue]; field_simp
+    simp only [secWhat]
+    rw [hdef .sum]
+    show _ = (mergeRows (bucketRows st members T (T + (r : Int)))).map (rowValue .sum r r)
+    rw [hb, (reduce_sum_sound _ r r).2, hfun, aggSum_def]
+    simp only [otApply, otNil]
+    by_cases h0 : (present (((List.range r).map (fun (d : Nat) => mergeRows (bucketRows st members (T + (d : Int)) (T + (d : Int) + 1)))).map (Option.map (rowValue .sumsec 1 1)))) = []
+    · simp [h0]
+    · have : ¬ (present (((List.range r).map (fun (d : Nat) => mergeRows (bucketRows st members (T + (d : Int)) (T + (d : Int) + 1)))).map (Option.map (rowValue .sumsec 1 1)))).length = 0 := by
+        intro hc; exact h0 (List.eq_nil_of_length_eq_zero hc)
+      simp [h0, this]
+  · obtain ⟨hb, hdef⟩ := two_grid_core st members t1 τ0 T r j (rowValue .min 1 1) hg hr hrj hj hT
+    show (overTime t1 r 1 .min ((List.range t1.length).map _)).getD j none = _
+    have hfun : (rowValue .min (r : Int) (r : Int)) = (rowValue .min 1 1) := by
+      funext row; simp [rowValue]
+    simp only [secWhat]
+    rw [hdef .min]
+    show _ = (mergeRows (bucketRows st members T (T + (r : Int)))).map (rowValue .min r r)
+    rw [hb, reduce_min_sound _ r r, hfun]
+    by_cases h0 : (present (((List.range r).map (fun (d : Nat) => mergeRows (bucketRows st members (T + (d : Int)) (T + (d : Int) + 1)))).map (Option.map (rowValue .min 1 1)))).length = 0
+    · have hn := (aggMin_def _).1 (List.eq_nil_of_length_eq_zero h0)
+      rw [if_pos h0, hn]; rfl
+    · rw [if_neg h0]; rfl
+  · obtain ⟨hb, hdef⟩ := two_grid_core st members t1 τ0 T r j (rowValue .max 1 1) hg hr hrj hj hT
+    show (overTime t1 r 1 .max ((List.range t1.length).map _)).getD j none = _
+    have hfun : (rowValue .max (r : Int) (r : Int)) = (rowValue .max 1 1) := by
+      funext row; simp [rowValue]
+    simp only [secWhat]
+    rw [hdef .max]
+    show _ = (mergeRows (bucketRows st members T (T + (r : Int)))).map (rowValue .max r r)
+    rw [hb, reduce_max_sound _ r r, hfun]
+    by_cases h0 : (present (((List.range r).map (fun (d : Nat) => mergeRows (bucketRows st members (T + (d : Int)) (T + (d : Int) + 1)))).map (Option.map (rowValue .max 1 1)))).length = 0
+    · have hn := (aggMax_def _).1 (List.eq_nil_of_length_eq_zero h0)
+      rw [if_pos h0, hn]; rfl
+    · rw [if_neg h0]; rfl
+
+/-- **(2) rule #2, two grids** — `agg by (G) (f_over_time(m[r]))` with agg∘f ∈ sum∘sum, min∘min, max∘max is pushed down as ONE
+    storage query (rule2_expression: what = f, grouped by G, Range r).  Its point for a group and the bucket [T, T+r) of
+    the coarse grid (point i, bucket width r = Range) equals the engine's evaluation on the one-second grid: agg over the
+    group's series of f_over_time(v1_m[r]) at the bucket's last second, `v1_m` = the series' one-second points; at most
+    one event per series in every second of the grid. -/
+theorem rule2_two_grids (st : Store) (ts : TS) (members : List Nat) (hnd : members.Nodup) (i : Nat)
+    (t1 : List Int) (τ0 T : Int) (r j : Nat) (hTi : ts.times.getD i 0 = T) (hwi : ts.width i = (r : Int))
+    (hg : uniform t1 τ0 1)
+    (hone : ∀ m ∈ members, ∀ k : Nat, k < t1.length → (bucketRows st [m] (τ0 + (k : Int)) (τ0 + (k : Int) + 1)).length ≤ 1)
+    (hr : 1 ≤ r) (hrj : r ≤ j) (hj : j < t1.length) (hT : τ0 + (j : Int) = T + (r : Int) - 1) :
+    let v1 (m : Nat) : List Val := (List.range t1.length).map (fun (k : Nat) => secVal (mergeRows (bucketRows st [m] (τ0 + (k : Int)) (τ0 + (k : Int) + 1))))
+    groupPoint st ts .sum r members i = aggSum (members.map (fun m => (overTime t1 r 1 .sum (v1 m)).getD j none)) ∧
+    groupPoint st ts .min r members i = aggMin (members.map (fun m => (overTime t1 r 1 .min (v1 m)).getD j none)) ∧
+    groupPoint st ts .max r members i = aggMax (members.map (fun m => (overTime t1 r 1 .max (v1 m)).getD j none)) := by
+  intro v1
+  have hr0 : ((r : Nat) : Int) ≠ 0 := by omega
+  have hq : queryStep ts (r : Int) (r : Int) = (r : Int) := by unfold queryStep; rw [if_pos hr0]
+  have hpt : ∀ (w : What) (m : Nat), groupPoint st ts w r [m] i = (mergeRows (bucketRows st [m] T (T + (r : Int)))).map (rowValue w r r) := by
+    intro w m; unfold groupPoint; rw [hTi, hwi, hq]
+  obtain ⟨h1, h2, _, _, h5, h6⟩ := groupPoint_pushdown st ts (r : Int) members hnd i
+  refine ⟨?_, ?_, ?_⟩
+  · rw [h2]; congr 1
+    apply List.map_congr_left
+    intro m hm
+    rw [hpt]
+    exact ((overtime_pushdown_two_grids st m t1 τ0 T r j hg (hone m hm) hr hrj hj hT).1).symm
+  · rw [h5]; congr 1
+    apply List.map_congr_left
+    intro m hm
+    rw [hpt]
+    exact ((overtime_pushdown_two_grids st m t1 τ0 T r j hg (hone m hm) hr hrj hj hT).2.1).symm
+  · rw [h6]; congr 1
+    apply List.map_congr_left
+    intro m hm
+    rw [hpt]
+    exact ((overtime_pushdown_two_grids st m t1 τ0 T r j hg (hone m hm) hr hrj hj hT).2.2.1).symm
+
+/-- non-vacuity of the two-grid statements: both series of `exStore`, the bucket [100, 102) as point 1 of a 2 s grid -/
+example :
+    let ts : TS := ⟨[98, 100], 1, 1, 2, 2, 2, []⟩
+    ts.times.getD 1 0 = 100 ∧ ts.width 1 = 2 ∧
+    (∀ m ∈ [0, 1], ∀ k : Nat, k < 3 → (bucketRows exStore [m] (99 + (k : Int)) (99 + (k : Int) + 1)).length ≤ 1) ∧
+    groupPoint exStore ts .sum 2 [0, 1] 1 = some 16 ∧ groupPoint exStore ts .max 2 [0, 1] 1 = some 10 ∧
+    (mergeRows (bucketRows exStore [0] 100 102)).map (rowValue .avg 2 2) = some 3 := by decide +kernel
 
 
 end SH.Props.C27
